@@ -35,6 +35,7 @@ def main(argv=None):
     ap.add_argument("--tier", default=os.environ.get("VERIF_TIER", "quick"), choices=["quick", "thorough"])
     ap.add_argument("--replay")
     ap.add_argument("--repo", default=os.environ.get("SA_REPO", REPO))
+    ap.add_argument("--scratch", action="store_true", help="self-validation run on a scratch copy: no evidence / replay files")
     a = ap.parse_args(argv)
     seed = int(os.environ.get("VERIF_SEED", "0") or 0)
     sys.path.insert(0, VERIF)
@@ -55,6 +56,16 @@ def main(argv=None):
         if not a.pid:
             ap.error("property id required")
         rep, meta, wall = run_property(a.pid, a.tier, seed, a.repo)
+        if a.scratch:
+            from .core import load_known
+            known = {k["key"] for k in load_known().get("known", []) if k.get("property") == a.pid}
+            new = sorted({(o.rule, o.key) for o in rep.violations if o.key not in known})
+            for rule, key in new:
+                print("SCRATCH-VIOLATION rule=%s key=%s" % (rule, key))
+            if not new and rep.floor_failures:
+                print("ANALYSIS-ERROR property=%s: %s" % (a.pid, "; ".join(rep.floor_failures)))
+                return 2
+            return 1 if new else 0
         if a.tier == "thorough":
             from . import selfval
             selfval.run(a.pid, rep, seed)
